@@ -23,7 +23,7 @@ CHECKS = {
              "first call after the last reset otherwise; complex = two independent real quantisers). quantize_real is tied bit for bit to a "
              "PrimFloat (binary64) twin and to the rational model on an exact dyadic domain; RealQuantizer/ComplexQuantizer histories are "
              "run against the refresh state machine; range/monotonicity/formula/zero-variance are re-evaluated on the implementation.",
-        design="3/C09", technique="Coq proof over Q + induction on call histories; PrimFloat bit-exact twin; history correspondence"),
+        design="3/C09", technique="source-regenerated scalar kernels (tools/py2v.py) proved equal to the model + Coq proof over Q + induction on call histories; PrimFloat bit-exact twin; history correspondence"),
     "C08": dict(
         text="Theorems for all (taps, branches), all streams and all admissible chunkings, generic in the sample type and the per-window "
              "function (hence valid for doubles): cached chunked channelisation = one-shot rows, exact spectrum count, interleaved objects "
